@@ -702,6 +702,7 @@ def doc_cond_reads(m: Macro) -> Set[str]:
         if mm:
             cond = re.sub(r'//.*$', '', mm.group(1))
             cond = cond.split(':')[0] if ':' in cond and not re.search(r'\[[^\]]*:[^\]]*\]', cond.split(':')[0] + ':') else cond
+            cond = re.split(r',\s+(?=[a-z])|\s+then\s+|\s+goto\s+|\s+jump\s+', cond)[0]          # `if ascii is a digit, set bin to ..`: the condition ends at the comma
             out |= set(re.findall(r'(?<![\w.])([A-Za-z_]\w*)', cond)) & set(m.params)
     return out
 
@@ -852,6 +853,39 @@ def rule_exit_clean(rep: Report, stl: Stl, prop: str, files: List[str], floor: i
                       f'{m.file}:{m.line} {m.name}', expected=f'the {operand}==0 test towards {X} before the first in-place change')
     if n_inst < floor:
         raise AnalysisError(f'{rule}: {n_inst} macros with a documented zero-exit and in-place sign handling (at least {floor} confirmed by hand: hex.idiv)')
+
+
+# ---------------------------------------------------------------- FJ.INPUT-PRESERVED (a cast does not change what it casts)
+
+def rule_input_preserved(rep: Report, stl: Stl, prop: str, files: List[str], floor: int, w: int = 64) -> None:
+    rule = f'{prop}.INPUT-PRESERVED'
+    rep.rule(rule, 'a parameter the contract of a cast / input / print macro only LOOKS AT (it is named in a condition of the doc block, or only on '
+             'right-hand sides, and never assigned or updated there) is not changed by the body: no statement whose callee contract updates or '
+             'assigns its argument is applied to it (a caller that casts the same variable twice, or uses it afterwards, sees its own value)', floor)
+    env0 = dict(base_env(w))
+    n = 0
+    for key, m in sorted(stl.macros.items()):
+        if m.file not in files:
+            continue
+        eff = doc_effects(m)
+        looks = doc_cond_reads(m)
+        ro = {p for p in m.params if (eff.get(p) == 'read' or p in looks) and eff.get(p) not in ('assign', 'update')}
+        if not ro:
+            continue
+        env = dict(env0)
+        for p in m.params:
+            env[p] = {p: 1}
+        for p in sorted(ro):
+            n += 1
+            bad = []
+            for op in m.body:
+                cl = _effect_on(stl, op, {p}, env)
+                if cl.get(p) in ('update', 'assign'):
+                    bad.append(f'line {op[-1]} `{_stmt_name(op)}` {cl[p]}s {p} in place')
+            rep.check(not bad, rule, f'{key[0]}/{key[1]}:{p}', bad[0] if bad else 'only looked at', f'{m.file}:{m.line} {m.name}',
+                      expected=f'{p} keeps its value (the contract only tests / reads it)')
+    if n < floor:
+        raise AnalysisError(f'{rule}: {n} looked-at parameters found (at least {floor} confirmed by hand)')
 
 
 # ---------------------------------------------------------------- FJ.ALIAS (documented aliasing hazards are respected by callers)
@@ -2394,3 +2428,28 @@ def rule_bitorder(rep: Report, stl: Stl, w: int = 64) -> None:
     rep.check(not (says_le and offs[0] > offs[1]), rule, 'bit.input/2', f'documented "{[l for l in m.doc if "endian" in l.lower()]}"; byte i=0 is stored at cell {offs[0]}, '
               f'byte i=1 at cell {offs[1]}: the FIRST input byte becomes the MOST significant (bytes 34 12 read as 0x3412; hex.input 2 reads 0x1234)',
               f'{m.file}:{op[5]} {m.name}', expected='little endian = first byte least significant (ascending), as documented')
+    # the same contradiction anywhere else in the io files: a contract that says "lsb first" / "little endian" over a single rep that
+    # walks its units in DESCENDING address order
+    for key, m2 in sorted(stl.macros.items()):
+        if key == ('bit.input', 2) or not any(m2.file.endswith(f_) for f_ in ('bit/input.fj', 'bit/output.fj', 'hex/input.fj', 'hex/output.fj')):
+            continue
+        doc2 = ' '.join(m2.doc).lower()
+        if 'lsb first' not in doc2 and 'little endian' not in doc2:
+            continue
+        reps2 = [o for o in m2.body if o[0] == 'rep' and o[4]]
+        if len(reps2) != 1 or not m2.params:
+            continue
+        env2 = dict(base_env(w))
+        for p_ in m2.params:
+            env2[p_] = {p_: 1}
+        for p_ in m2.params[:-1]:
+            env2[p_] = 3
+        try:
+            o0 = ev(reps2[0][4][0], {**env2, reps2[0][2]: 0}).get('', 0)
+            o1 = ev(reps2[0][4][0], {**env2, reps2[0][2]: 1}).get('', 0)
+        except (NeedConcrete, OpaqueValue, AnalysisError):
+            continue
+        said = [l_.strip() for l_ in m2.doc if 'lsb first' in l_.lower() or 'little endian' in l_.lower()]
+        rep.check(o0 <= o1, rule, f'{key[0]}/{key[1]}:documented order', f'documented "{said[0][:90]}"; unit i=0 is at offset {o0 // (2 * w)}, unit i=1 at offset {o1 // (2 * w)}'
+                  + ('' if o0 <= o1 else ': the FIRST unit handled is the MOST significant one'), f'{m2.file}:{reps2[0][5]} {m2.name}',
+                  expected='ascending, as documented')
